@@ -46,7 +46,22 @@ fn run<const B: usize, const L: usize>(p: &[&str]) -> String {
         }
         "lcm" => {
             let (a, c): (U<B, L>, U<B, L>) = (u(p[2]), u(p[3]));
-            opt(a.lcm(c))
+            let r = a.lcm(c);
+            // the num-integer surface (`gcd`, `lcm`, the provided `gcd_lcm`) must agree with the inherent methods: the same
+            // values, a panic exactly where the inherent `lcm` reports an overflow (`None`)
+            use num_integer::Integer;
+            let g = a.gcd(c);
+            let ni_g = std::panic::catch_unwind(|| <U<B, L> as Integer>::gcd(&a, &c));
+            let ni_l = std::panic::catch_unwind(|| <U<B, L> as Integer>::lcm(&a, &c));
+            let ni_gl = std::panic::catch_unwind(|| <U<B, L> as Integer>::gcd_lcm(&a, &c));
+            let ok = match r {
+                Some(l) => ni_g.ok() == Some(g) && ni_l.ok() == Some(l) && ni_gl.ok() == Some((g, l)),
+                None => ni_g.ok() == Some(g) && ni_l.is_err() && ni_gl.is_err(),
+            };
+            if !ok {
+                return "facade-mismatch".into();
+            }
+            opt(r)
         }
         "gcdext" => {
             let (a, c): (U<B, L>, U<B, L>) = (u(p[2]), u(p[3]));
